@@ -1070,7 +1070,8 @@ class QuantityMeta(ClassWithDefinitionMeta):
         unit._qty_cls = cls
         if isinstance(define_as, Term):
             unit._definition = define_as
-            unit._equiv = define_as.normalized().num_elem or ONE
+            # (multiplied by ONE, because the numeric element may be an int)
+            unit._equiv = ONE * (define_as.normalized().num_elem or ONE)
         else:
             assert define_as is None, "Unknown type of Unit definition."
             unit._definition = None
